@@ -16,9 +16,12 @@ Point(ci, ni, mi) == [c |-> CGrid[ci], na |-> NaGrid[ni], mg |-> MgGrid[mi],
                       ds3 |-> dS3(w, LnSalt[ni][mi]),
                       d3 |-> D3(w, LnSalt[ni][mi], LnCOf(ci, w)),
                       tm |-> IF D3(w, LnSalt[ni][mi], LnCOf(ci, w)) = 0 THEN 0 ELSE TmCentiC(w, LnSalt[ni][mi], LnCOf(ci, w))]
+(* one line per (oligo, oligo concentration): lines stay below the 8 KiB that one append of CSVWrite carries atomically *)
+PtsFor(ci) == SelectSeq(GridSeq, LAMBDA t : t[1] = ci)
 Emit == Len(w) >= 2 =>
-    CSVWrite("%1$s", <<ToJson([s |-> Join(w), dh10 |-> dH10(w), self |-> SelfCompl(w), md |-> MarmurDoty(w),
-                               pts |-> [k \in 1..Len(GridSeq) |-> Point(GridSeq[k][1], GridSeq[k][2], GridSeq[k][3])]])>>, IOEnv.OUTFILE)
+    \A ci \in CIdx :
+       CSVWrite("%1$s", <<ToJson([s |-> Join(w), dh10 |-> dH10(w), self |-> SelfCompl(w), md |-> MarmurDoty(w),
+                                  pts |-> [k \in 1..Len(PtsFor(ci)) |-> Point(PtsFor(ci)[k][1], PtsFor(ci)[k][2], PtsFor(ci)[k][3])]])>>, IOEnv.OUTFILE)
 Duplex(ci, ni, mi) == D3(w, LnSalt[ni][mi], LnCOf(ci, w)) < 0
 Tm(ci, ni, mi) == TmCentiC(w, LnSalt[ni][mi], LnCOf(ci, w))
 (* non-strict here: at hundredths of a degree two grid points can coincide (e.g. 1 mM vs 50 mM sodium next to 100 mM
